@@ -626,3 +626,120 @@ pub fn sequential_bars_case(seed: u64, idx: u64) -> CaseOut {
     co.count("sequential_bar_histories", 1);
     co
 }
+
+/// C02 (`g` cases): a live member bar leaves its slot - it is added again to the same MultiProgress,
+/// added to another one, or given a terminal of its own - while a second thread redraws the very same bar.
+/// The second thread's tick is let loose (delay hook) at the K-th synchronisation point of the
+/// retargeting call, i.e. at every point of the call where the bar's lock is not held. Whichever call
+/// takes effect first, afterwards the bar is shown exactly once, where it now belongs, and the
+/// MultiProgress it left shows it no more.
+pub fn retarget_window_case(seed: u64, idx: u64) -> CaseOut {
+    let mut rng = Rng::derive(seed, 2020, idx);
+    let replay = format!("g{seed}:{idx}");
+    let kind = rng.below(3); // 0 re-add to the same MultiProgress, 1 add to another one, 2 own terminal
+    let fire_at = rng.range(1, 16);
+    let helper_op = rng.below(3);
+    let names = ["mp.add(member)", "other_mp.add(member)", "member.set_draw_target(terminal)"];
+    let witness = J::obj().with("retarget", names[kind as usize]).with("second_thread_runs_at_sync_point", fire_at).with("second_thread_op", ["tick", "set_message", "inc"][helper_op as usize]);
+    let feats = vec!["concurrent".to_string(), "multi".to_string(), "retarget-race".to_string()];
+    let mut co = CaseOut::held(fnv1a(format!("g{kind}{fire_at}{helper_op}").as_bytes()), true);
+    let spy = SpyTerm::new(40, 20, false);
+    let spy2 = SpyTerm::new(40, 20, false);
+    let armed = Arc::new(AtomicBool::new(false));
+    let points = Arc::new(AtomicU64::new(0));
+    let done = Arc::new(AtomicBool::new(false));
+    let (tx, rx) = mpsc::channel::<()>();
+    let tx = Mutex::new(Some(tx));
+    let (a2, p2, d2) = (armed.clone(), points.clone(), done.clone());
+    let session = vh::Session::new(
+        None,
+        false,
+        Some(Box::new(move |p: &vh::DelayPoint| {
+            if p.thread != 0 || !a2.load(SeqCst) || !matches!(p.kind, vh::DelayKind::AfterRelease | vh::DelayKind::BeforeRequest) {
+                return;
+            }
+            if p2.fetch_add(1, SeqCst) + 1 == fire_at {
+                if let Some(tx) = tx.lock().unwrap().take() {
+                    let _ = tx.send(());
+                    // give the other thread a moment to complete its call inside ours (it cannot while we hold the bar)
+                    let t0 = Instant::now();
+                    while !d2.load(SeqCst) && t0.elapsed() < Duration::from_millis(4) {
+                        std::thread::yield_now();
+                    }
+                }
+            }
+        })),
+    );
+    vh::install(Some(session));
+    let res = catch_unwind(AssertUnwindSafe(|| -> Option<Result<(), (&'static str, String)>> {
+        let style = |n: &str| ProgressStyle::with_template(&format!("{n} {{pos}}/{{len}} {{msg}}")).unwrap();
+        let mp = MultiProgress::with_draw_target(ProgressDrawTarget::term_like(spy.boxed()));
+        let mp2 = MultiProgress::with_draw_target(ProgressDrawTarget::term_like(spy2.boxed()));
+        let b0 = mp.add(ProgressBar::with_draw_target(Some(10), ProgressDrawTarget::hidden()).with_style(style("B0")));
+        let b1 = mp.add(ProgressBar::with_draw_target(Some(10), ProgressDrawTarget::hidden()).with_style(style("B1")));
+        b0.tick();
+        b1.tick();
+        let hb = b0.clone();
+        let dd = done.clone();
+        let helper = std::thread::spawn(move || {
+            if rx.recv().is_ok() {
+                match helper_op {
+                    0 => hb.tick(),
+                    1 => hb.set_message("x"),
+                    _ => hb.inc(1),
+                }
+                dd.store(true, SeqCst);
+            }
+        });
+        armed.store(true, SeqCst);
+        match kind {
+            0 => {
+                mp.add(b0.clone());
+            }
+            1 => {
+                mp2.add(b0.clone());
+            }
+            _ => b0.set_draw_target(ProgressDrawTarget::term_like(spy2.boxed())),
+        }
+        armed.store(false, SeqCst);
+        let reached = points.load(SeqCst) >= fire_at;
+        vh::install(None);
+        if !reached {
+            drop(helper);
+            b0.abandon();
+            b1.abandon();
+            return None;
+        }
+        let _ = helper.join();
+        // both bars draw themselves once more, each where it now lives
+        b0.tick();
+        b1.tick();
+        let count = |s: &SpyTerm, n: &str| rows_of(s).iter().filter(|r| r.starts_with(n)).count();
+        let (old_b0, old_b1, new_b0) = (count(&spy, "B0"), count(&spy, "B1"), count(&spy2, "B0"));
+        let r = if old_b1 != 1 {
+            Err(("member-missing", format!("B1 is shown {old_b1} times after its sibling was retargeted: {:?}", rows_of(&spy))))
+        } else if kind == 0 && old_b0 != 1 {
+            Err((if old_b0 > 1 { "member-duplicated" } else { "member-missing" }, format!("B0 was added to its MultiProgress again while another thread redrew it: it is shown {old_b0} times: {:?}", rows_of(&spy))))
+        } else if kind != 0 && old_b0 != 0 {
+            Err(("removed-bar-visible", format!("B0 left the MultiProgress ({}) while another thread redrew it; the MultiProgress still shows it: {:?}", names[kind as usize], rows_of(&spy))))
+        } else if kind != 0 && new_b0 != 1 {
+            Err((if new_b0 > 1 { "member-duplicated" } else { "member-missing" }, format!("B0 is shown {new_b0} times on its new terminal: {:?}", rows_of(&spy2))))
+        } else {
+            Ok(())
+        };
+        b0.abandon();
+        b1.abandon();
+        Some(r)
+    }));
+    vh::install(None);
+    match res {
+        Err(p) => co.verdict = viol("panic", feats, format!("panicked: {}", crate::world::panic_message(&p)), witness, replay),
+        Ok(None) => co.nontrivial = false,
+        Ok(Some(Err((rule, d)))) => co.verdict = viol(rule, feats, d, witness, replay),
+        Ok(Some(Ok(()))) => {
+            co.count("retarget_windows_probed", 1);
+            co.count("second_thread_completed_inside_the_call", done.load(SeqCst) as u64);
+        }
+    }
+    co
+}
